@@ -112,8 +112,14 @@ type FnEnc struct {
 	parent     *FnEnc
 	entryGuard string
 	rets       []retInfo
+	addrTerms  []addrTerm // integer identities given to field addresses (speceval.go addrOf)
 	pure       bool // term mode (pureEval): definitions are substituted, nothing is emitted
 	impure     bool // term mode met something that needs a declaration, an assumption-free reading does not exist
+}
+
+type addrTerm struct {
+	term, rootSort, ref string
+	field               int
 }
 
 type localRef struct {
